@@ -377,11 +377,11 @@ def _conv(typ, v):
     if typ == "number":
         # documented type: a number.  Numbers are kept; a numeric string must come out as the
         # number it denotes (or be refused); anything else cannot be a number.
-        if k in ("bool", "int", "float", "npint", "npfloat"):
+        if k in ("int", "float", "npint", "npfloat"):
             return v
         if k == "str":
             return Outcome("ok", text_number(str(v)), alt_reject=True)
-        if k in ("npbool", "ndarray0", "bytes"):
+        if k in ("bool", "npbool", "ndarray0", "bytes"):
             raise _DontCare(f"{k} for a number key")
         raise _Reject(f"{k} is not a number")
     if k == "bytes":
@@ -429,6 +429,8 @@ def _conv(typ, v):
             if len(items) != 2:
                 raise _Reject("length is not two")
             return tuple(as_real(it) for it in items)
+        if k == "str":
+            raise _DontCare("text form of a sequence is undocumented")
         raise _Reject(f"{k} is not a one-dimensional sequence")
     if typ == "f2dfloatarray":
         if k in ("list", "tuple") or k.startswith("ndarray"):
